@@ -423,6 +423,8 @@ class Unord:
                     continue
                 if a in exhaustion:
                     continue
+                if fn.term(s)["k"] == "unreachable":
+                    continue        # the `otherwise` edge of an exhaustive match: not an exit
                 # condition(s) controlling this exit inside the loop
                 conds = []
                 if fn.term(a)["k"] == "switch":
